@@ -120,8 +120,9 @@ func (s *Swarm[T]) MTU() int {
 
 func (s *Swarm[T]) Close() error {
 	s.cf()
-	err := s.inner.Close()
+	// blocked Receive calls return now; closing the inner swarm can wait for a callback that is still running.
 	s.hub.CloseWithError(p2p.ErrClosed)
+	err := s.inner.Close()
 	s.eg.Wait()
 	// stop the timers of every channel, otherwise they keep retransmitting and rekeying after Close.
 	s.store.purge(func(_ string, c *channelState) bool {
